@@ -27,6 +27,13 @@ def run(ctx):
         tpath = ctx.replay
     else:
         ctx.run_bin("unit-verif", ["c18", tpath, "300" if quick else "6000"], timeout=300)
+        # the setting as the command line delivers it (flag declared and bound the way the command does), one value
+        # per process: not given, fractions, and every integer the default / alias handling could single out
+        vals = ["none", "0.5", "1", "8", "19.99", "20", "20.0", "20.5", "21", "50", "64.25", "256", "1000"]
+        if not quick:
+            vals += [str(v) for v in range(2, 130)] + ["%d.5" % v for v in range(0, 60)]
+        for v in vals:
+            ctx.run_bin("unit-verif", ["c18cfg", tpath, v], timeout=60)
     events = vf.read_ndjson(tpath)
     mon = ctx.validate("C18_Mon", "C18_mon.cfg", tpath, name="mon")
     if mon["hwm"] < mon["total"]:
